@@ -12,7 +12,7 @@ namespace {
 using U = uint64_t;
 struct Fnv { uint64_t h = 1469598103934665603ull; void add(uint64_t v) { for (int i = 0; i < 8; ++i) { h ^= (v >> (8 * i)) & 0xff; h *= 1099511628211ull; } } };
 
-std::vector<U> keys;   // 3000 keys with irregular gaps and duplicates, a dense irregular cluster of 6000 keys, 40 far keys
+std::vector<U> keys;   // see zoo_build
 pgm::PGMIndex<U, 4, 2> *pgm_idx;
 pgm::CompressedPGMIndex<U, 4, 2> *comp_idx;
 pgm::BucketingPGMIndex<U, 4, 16, 32> *buck_idx;
@@ -28,7 +28,7 @@ std::string map_file;
 U probe(int q) {   // 8 probes: present keys, absent keys in gaps, below the first key, above the last key, far away
     switch (q) {
         case 0: return keys[10]; case 1: return keys[1500] + 1; case 2: return keys.back(); case 3: return 0;
-        case 4: return keys.back() + 12345; case 5: return keys[6000]; case 6: return (U(1) << 63) + 5; default: return keys[7000] + 1;   // 5 and 7: inside the dense irregular cluster
+        case 4: return keys.back() + 12345; case 5: return keys[6000]; case 6: return (U(1) << 63) + 5; default: return keys[18550] + 1;   // 5: inside the dense zig-zag cluster, 7: inside the linear stretches
     }
 }
 template<typename I> uint64_t search_digest(const I &ix, int q) { auto r = ix.search(probe(q)); Fnv f; f.add(r.pos); f.add(r.lo); f.add(r.hi); return f.h; }
@@ -36,12 +36,15 @@ template<typename I> uint64_t search_digest(const I &ix, int q) { auto r = ix.se
 
 void zoo_build(const char *dir) {
     U x = 1000;
+    // 30 sparse keys (some empty Elias-Fano buckets before everything else, so that the dense part below starts inside a select block)
+    for (int i = 0; i < 30; ++i) { keys.push_back(x); x += (U(1) << 33) + U(i) * 1237; }
     for (int i = 0; i < 3000; ++i) { x += (i % 11 == 0 || (i > 500 && i <= 540)) ? 0 : 1 + (U(i) * 2654435761u % 53) * (i % 17 == 0 ? 4000 : 1); keys.push_back(x); }   // short duplicate runs, and one run of 41 equal keys (longer than any search window)
-    // a dense irregular cluster of 6000 keys (hundreds of short segments within a few Elias-Fano buckets: long scans inside the select
-    // structures) followed by 40 far keys (long runs of empty buckets)
+    // a dense zig-zag cluster of 9000 keys: hundreds of short segments inside one Elias-Fano bucket (long word scans in select_0)
     x += 1000;
-    for (int i = 0; i < 6000; ++i) { x += (i % 9 == 0) ? 37 + (U(i) * 2654435761u % 5) : 1 + (U(i) * 40503u % 3 == 0); keys.push_back(x); }
-    for (int i = 0; i < 40; ++i) { x += (U(1) << 40) + U(i) * 977; keys.push_back(x); }
+    for (int i = 0; i < 9000; ++i) { x += ((i / 10) % 2) ? 20 + (U(i) * 2654435761u % 5) : 1; keys.push_back(x); }
+    // linear stretches of 900 keys between irregular ones: segments covering hundreds of positions (long word scans in select_1 of the compressed intercepts)
+    for (int s = 0; s < 12; ++s) { for (int i = 0; i < 900; ++i) keys.push_back(++x); for (int i = 0; i < 30; ++i) { x += 5 + (U(i) * 2654435761u % 91); keys.push_back(x); } }
+    for (int i = 0; i < 40; ++i) { x += (U(1) << 40) + U(i) * 977; keys.push_back(x); }   // far keys: long runs of empty buckets
     pgm_idx = new pgm::PGMIndex<U, 4, 2>(keys.begin(), keys.end());
     comp_idx = new pgm::CompressedPGMIndex<U, 4, 2>(keys.begin(), keys.end());
     buck_idx = new pgm::BucketingPGMIndex<U, 4, 16, 32>(keys.begin(), keys.end());
@@ -64,7 +67,7 @@ int zoo_classes() { return 8; }
 const char *zoo_class_name(int c) { static const char *n[] = {"PGMIndex<u64,4,2>", "CompressedPGMIndex<u64,4,2>", "BucketingPGMIndex<u64,4,16,32>", "EliasFanoPGMIndex<u64,4>", "MappedPGMIndex<u64,4,2>", "MultidimensionalPGMIndex<2,u32,4>", "DynamicPGMIndex<u32,u32>(2,1,2)", "BucketingPGMIndex<u64,4,100,0>"}; return n[c]; }
 int zoo_queries(int) { return 8; }
 const char *zoo_query_name(int c, int q) {
-    static const char *s[] = {"search(present)", "search(gap)", "search(last)", "search(0)", "search(above last)", "search(in dense cluster)", "search(far)", "search(gap in dense cluster)"};
+    static const char *s[] = {"search(present)", "search(gap)", "search(last)", "search(0)", "search(above last)", "search(in dense cluster)", "search(far)", "search(gap in linear stretch)"};
     static const char *m[] = {"lower_bound(present)", "upper_bound(gap)", "count(long dup run)", "contains(0)", "lower_bound(above last)", "upper_bound(long dup run)", "contains(far)", "count(absent)"};
     static const char *d[] = {"contains(stored)", "contains(absent)", "range(small box)", "range(slab with 70 misses)", "range(full)", "range(empty box)", "contains(beyond)", "range(corner)"};
     static const char *y[] = {"find(live)", "find(erased)", "count", "lower_bound(gap)", "lower_bound(below)", "range(20,90)", "full iteration", "begin+3"};
@@ -82,8 +85,8 @@ uint64_t zoo_run(int c, int q) {
             Fnv f; U k = probe(q);
             switch (q) {
                 case 0: case 4: f.add(map_idx->lower_bound(k) - map_idx->begin()); break;
-                case 1: case 5: f.add(map_idx->upper_bound(q == 5 ? keys[520] : k) - map_idx->begin()); break;   // q5: inside the long run
-                case 2: case 7: f.add(map_idx->count(q == 2 ? keys[520] : k)); break;
+                case 1: case 5: f.add(map_idx->upper_bound(q == 5 ? keys[550] : k) - map_idx->begin()); break;   // q5: inside the long run
+                case 2: case 7: f.add(map_idx->count(q == 2 ? keys[550] : k)); break;
                 default: f.add(map_idx->contains(k)); break;
             }
             return f.h;
